@@ -434,6 +434,8 @@ type World struct {
 	Log     *SignLog
 	Blocks  *BlockRegistry
 	Opts    []core.RuntimeOption
+	// Async leaves vote verification asynchronous (goroutine per vote), as in production.
+	Async bool
 }
 
 // GenKey generates a private key for the scheme.
@@ -480,8 +482,13 @@ func pooledKey(scheme string, i int) hotstuff.PrivateKey {
 // NewWorld builds n members with the given scheme and cache size. Extra runtime
 // options (e.g. core.WithAggregateQC()) apply to every member.
 func NewWorld(n int, scheme string, cache uint, opts ...core.RuntimeOption) *World {
+	return NewWorldMode(n, scheme, cache, false, opts...)
+}
+
+// NewWorldMode is NewWorld with a choice of synchronous or asynchronous vote verification.
+func NewWorldMode(n int, scheme string, cache uint, async bool, opts ...core.RuntimeOption) *World {
 	w := &World{N: n, Scheme: scheme, Cache: cache, Keys: map[hotstuff.ID]hotstuff.PrivateKey{},
-		Log: NewSignLog(), Blocks: NewBlockRegistry(), Opts: opts}
+		Log: NewSignLog(), Blocks: NewBlockRegistry(), Opts: opts, Async: async}
 	for i := 1; i <= n; i++ {
 		w.Keys[hotstuff.ID(i)] = pooledKey(scheme, i-1)
 	}
@@ -493,7 +500,11 @@ func NewWorld(n int, scheme string, cache uint, opts ...core.RuntimeOption) *Wor
 }
 
 func (w *World) newMember(id hotstuff.ID, key hotstuff.PrivateKey) *Member {
-	all := append([]core.RuntimeOption{core.WithSyncVerification()}, w.Opts...)
+	var all []core.RuntimeOption
+	if !w.Async {
+		all = append(all, core.WithSyncVerification())
+	}
+	all = append(all, w.Opts...)
 	if w.Cache > 0 {
 		all = append(all, core.WithCache(w.Cache))
 	}
